@@ -348,7 +348,13 @@ func (e *Exec) newObj(t types.Type, v Value, tag string) *Obj {
 	if e.freezing {
 		tag = "frozen:" + tag
 	}
-	return &Obj{V: v, ID: e.objCtr, Typ: t, Tag: tag}
+	o := &Obj{V: v, ID: e.objCtr, Typ: t, Tag: tag}
+	if e.onceShare != "" {
+		// allocated by the body of a shared sync.Once: the value is published to every goroutine
+		e.onceCtr++
+		o.SharedID = fmt.Sprintf("%s#%d", e.onceShare, e.onceCtr)
+	}
+	return o
 }
 
 func (e *Exec) newArrObj(elem types.Type, n int, tag string) *Obj {
@@ -357,6 +363,10 @@ func (e *Exec) newArrObj(elem types.Type, n int, tag string) *Obj {
 		tag = "frozen:" + tag
 	}
 	o := &Obj{Arr: true, ID: e.objCtr, Typ: elem, Tag: tag, Elems: make([]Value, n)}
+	if e.onceShare != "" {
+		e.onceCtr++
+		o.SharedID = fmt.Sprintf("%s#%d", e.onceShare, e.onceCtr)
+	}
 	if n > 0 {
 		z := e.zero(elem)
 		for i := range o.Elems {
@@ -487,6 +497,9 @@ func (e *Exec) global(g *ssa.Global) *Obj {
 		p := e.alloc(t, "global:"+g.String())
 		e.freezing = saved
 		o = p.Obj
+		if !e.initMode {
+			o.SharedID = "G:" + g.String() // a package variable the initialisers never touched: shared by all goroutines
+		}
 	}
 	e.globals[g] = o
 	return o
